@@ -340,6 +340,23 @@ def impl_main(payload):
             elif not (abs(gv - want) <= 1e-9 * (1 + abs(want))):
                 orc["viol"].append("value at %r is %r, the expression denotes %r; stack %r constants %r"
                                    % (x[r].tolist(), gv, float(want), base, cs.tolist()))
+        # the SAME array object, refilled in place (a pre-allocated batch buffer), is new data: the result follows the contents
+        x_saved = x.copy()
+        x *= -0.75
+        x += 0.125
+        try:
+            got_b = np.asarray(g.evaluate_equation_at(x), dtype=float).reshape(-1)
+            for r in range(M):
+                info = {}
+                want = float(ref_eval(st2, x[r], cs, info))
+                if info["all_finite"] and math.isfinite(want) and not (abs(got_b[r] - want) <= 1e-9 * (1 + abs(want))):
+                    orc["viol"].append("after the data array was refilled in place, the value at %r is %r, the expression denotes %r "
+                                       "(the previous contents gave %r); stack %r" % (x[r].tolist(), float(got_b[r]), want,
+                                                                                     float(np.asarray(got).reshape(-1)[r]), base))
+                    break
+        except Exception as e:  # noqa
+            orc["viol"].append("evaluate_equation_at raised %r on the refilled array for stack %r" % (e, base))
+        x[...] = x_saved
         # rows the last command does not depend on never influence the result
         if any(not u for u in util):
             st3 = [list(r) for r in base]
